@@ -57,7 +57,8 @@ def _comps(draw):
     """Three shared Composition objects; the third carries the same NUMBER as the first in the other basis (same value,
     different meaning: exposes memoisation keyed on the number only)."""
     a = {"p": draw(gen.mid_fraction()), "basis": draw(gen.basis)}
-    b = {"p": draw(gen.mid_fraction()), "basis": draw(gen.basis)}
+    b = draw(st.one_of(st.fixed_dictionaries({"p": gen.mid_fraction(), "basis": gen.basis}),
+                       st.fixed_dictionaries({"p": st.sampled_from([0.0, 1.0]), "basis": gen.basis})))  # sometimes a pure composition
     return [a, b, {"p": a["p"], "basis": "molar" if a["basis"] == "weight" else "weight"}]
 
 
